@@ -32,6 +32,15 @@ func RepoDir() string {
 	return "/repo"
 }
 
+// OutDir is where evidence and replay files go: /verif, or VERIF_OUT for
+// self-tests that must not overwrite the evidence of the real tree.
+func OutDir() string {
+	if v := os.Getenv("VERIF_OUT"); v != "" {
+		return v
+	}
+	return VerifDir
+}
+
 func Seed() int64 {
 	if v := os.Getenv("VERIF_SEED"); v != "" {
 		if n, err := strconv.ParseInt(v, 10, 64); err == nil {
@@ -302,7 +311,7 @@ func (r *Run) Finish(cov map[string]any, assumptions []string) int {
 	}
 	head := RepoHead()
 	// violations -> replay files
-	replayDir := filepath.Join(VerifDir, "replays", r.Prop)
+	replayDir := filepath.Join(OutDir(), "replays", r.Prop)
 	var vsum []any
 	seen := map[string]bool{}
 	nprinted := 0
@@ -340,7 +349,7 @@ func (r *Run) Finish(cov map[string]any, assumptions []string) int {
 	}
 	cov["repo_head"] = head
 	bs, _ := json.MarshalIndent(ev, "", " ")
-	evdir := filepath.Join(VerifDir, "evidence")
+	evdir := filepath.Join(OutDir(), "evidence")
 	_ = os.MkdirAll(evdir, 0o755)
 	if err := os.WriteFile(filepath.Join(evdir, r.Prop+".json"), append(bs, '\n'), 0o644); err != nil {
 		fmt.Println("cannot write evidence:", err)
@@ -390,7 +399,26 @@ func RunCmd(dir string, timeout time.Duration, extraEnv []string, name string, a
 // BuildVgen builds the in-process harness from the current /repo tree.
 func (r *Run) BuildVgen() (string, error) {
 	bin := filepath.Join(r.Scratch, "vgen")
-	out, err := RunCmd(VerifDir, 10*time.Minute, nil, "go", "build", "-tags", "verif", "-o", bin, "./cmd/vgen")
+	args := []string{"build", "-tags", "verif", "-o", bin}
+	if RepoDir() != "/repo" {
+		// VERIF_REPO (self-tests on a scratch worktree): same module file with
+		// the replace directive pointing at that tree
+		mod, err := os.ReadFile(filepath.Join(VerifDir, "go.mod"))
+		if err != nil {
+			return "", err
+		}
+		alt := strings.Replace(string(mod), "replace github.com/vkd/goag => /repo", "replace github.com/vkd/goag => "+RepoDir(), 1)
+		modfile := filepath.Join(r.Scratch, "vgen.mod")
+		if err := os.WriteFile(modfile, []byte(alt), 0o644); err != nil {
+			return "", err
+		}
+		if sum, err := os.ReadFile(filepath.Join(VerifDir, "go.sum")); err == nil {
+			_ = os.WriteFile(filepath.Join(r.Scratch, "vgen.sum"), sum, 0o644)
+		}
+		args = append(args, "-modfile="+modfile)
+	}
+	args = append(args, "./cmd/vgen")
+	out, err := RunCmd(VerifDir, 10*time.Minute, nil, "go", args...)
 	if err != nil {
 		return "", fmt.Errorf("build vgen: %v\n%s", err, out)
 	}
